@@ -394,3 +394,19 @@ ADD5 = {
 for _pid in CLAIMS:
     CLAIMS[_pid]["text"] += (" Also (session 5): " + ADD5[_pid] if _pid in ADD5 else "") + SHARED5
     CLAIMS[_pid]["technique"] += "; shared syntax-tree post-passes for call-sequence / state / forwarding rules (pmsa/checks/statelib.py)"
+
+# ---- session 6 (DESIGN.md 13.7)
+SHARED6 = (" Session 6 added: block loops that drop the remainder (R-BLOCKTAIL), index-skipping generators consumed by position (R-GENSKIP), closures stored per loop iteration "
+           "that read the loop variable late (R-LATEBIND); the algebra comparison refutes fixed-decimal rounding wrapped around a real quantity and searches witnesses where the "
+           "argument of an integer part is a whole number; the shared rules still run when the property-specific analysis aborts (exit 2 at least, exit 1 if they find a violation).")
+ADD6 = {
+    "C01": "The list of frames a wrapper returns may not be sorted, reversed or strided (file order).",
+    "C19": "The list of frames a wrapper returns may not be sorted, reversed or strided (file order).",
+    "C06": "Selection masks built from the same leaf masks (mobility test, condition) are compared by truth table.",
+    "C16": "The middle index in whole-array form (arange + offset) is evaluated for windows 1..8; grid axes that start at a numeric constant instead of the lower bound are refuted; a window length whose interval is estimated from the whole trajectory is evaluated on six evenly spaced frames.",
+    "C15": "Folded-coordinate minimum images inside neighbour loops are evaluated with the neighbour rows bound to a set of other particles.",
+    "C17": "Folded-coordinate minimum images inside neighbour loops are evaluated with the neighbour rows bound to a set of other particles.",
+    "C18": "File / process-state rules that only C18 speaks of: to_csv(header=<list>) aliases evaluated against the column order (R-CSVHEADER), np.seterr / warnings-as-errors / chdir not restored on a path (R-GLOBALSTATE), the same requested file handed to two saving callees on one path, also through **options (R-SAVE-FWD).",
+}
+for _pid in CLAIMS:
+    CLAIMS[_pid]["text"] += (" Session 6: " + ADD6[_pid] if _pid in ADD6 else "") + SHARED6
